@@ -26,10 +26,6 @@ import lib  # noqa: E402
 from lib import PropertyCheck, clist, copt, cz  # noqa: E402
 
 I32MAX = 2**31 - 1
-# Does the clause "the coverage sums to len(sampling)" cover samplings whose position angles broadcast the pointing
-# (theta, phi) further?  The pinned get_coverage ignores Sampling.pa (reported: fixes/C17-coverage-pa-broadcast.diff);
-# True once that fix is in the tree (the model then multiplies the counts like the fixed code).
-PA_CLAUSE = False
 STOKES = ['I', 'QU', 'IQU', 'IQUV']
 
 # ----------------------------------------------------------------------------------------------
@@ -331,6 +327,8 @@ def exact_capacity(dtype) -> int:
 def healpy_eval(nside, dtype, angle_dtype, theta, phi):
     """world2pixel / world2index of a HealpixLandscape(nside, dtype=dtype) on the directions, in THIS process's
     x64 mode, next to healpy.ang2pix (ring) on the angle values the code saw."""
+    import warnings
+
     import healpy as hp
     import jax.numpy as jnp
     import numpy as np
@@ -343,10 +341,12 @@ def healpy_eval(nside, dtype, angle_dtype, theta, phi):
         _cls[key] = HealpixLandscape(nside, 'I', dtype=np_dtype(dtype))
     landscape = _cls[key]
     th, ph, single = effective_angles(theta, phi, angle_dtype, x64)
-    jt = jnp.asarray(th, dtype=np_dtype(angle_dtype))
-    jp = jnp.asarray(ph, dtype=np_dtype(angle_dtype))
-    pixels = landscape.world2pixel(jt, jp)
-    index = landscape.world2index(jt, jp)
+    with warnings.catch_warnings():
+        warnings.simplefilter('ignore')  # x64 off: the requested float64 is silently float32
+        jt = jnp.asarray(th, dtype=np_dtype(angle_dtype))
+        jp = jnp.asarray(ph, dtype=np_dtype(angle_dtype))
+        pixels = landscape.world2pixel(jt, jp)
+        index = landscape.world2index(jt, jp)
     return {
         'theta': th,
         'phi': ph,
@@ -941,12 +941,12 @@ class Check(PropertyCheck):
                 # the model broadcasts the fields itself, computes the indices and the histogram
                 tshape, pshape, pashape = field_shapes(case)
                 fld = lambda shape, data: f'(mkField {clist(shape, cz)} {clist(data, coq_float)})'  # noqa: E731
-                pa = 'true' if PA_CLAUSE else 'false'
-                return f'sampling_coverage {pa} {x64} {coq_landscape(case)} {fld(tshape, case["theta"])} {fld(pshape, case["phi"])} {clist(pashape, cz)}'
+                return f'sampling_coverage {x64} {coq_landscape(case)} {fld(tshape, case["theta"])} {fld(pshape, case["phi"])} {clist(pashape, cz)}'
             obs = self._obs.get(lib.case_id(case))
             if not isinstance(obs, dict) or 'indices' not in obs:
                 return None
-            return f'get_coverage {obs["len"]} {clist(obs["indices"], cz)}'
+            _, _, pashape = field_shapes(case)
+            return f'coverage_of_indices {obs["len"]} {clist(obs["index_shape"], cz)} {clist(obs["indices"], cz)} {clist(pashape, cz)}'
         return None
 
     def decode(self, case, v):
@@ -958,7 +958,9 @@ class Check(PropertyCheck):
                 return {'error': 'ValueError'}
             if name == 'CovError':
                 return {'error': args[0]['c']}
-            return {'coverage': v}
+            if name == 'Some':
+                return {'coverage': args[0]}
+            return {'coverage': None}
         if name == 'Ok':
             return {'dtype': f'int{args[0]}', 'idx': args[1]}
         if name in ('Error', 'Rejected'):
@@ -1081,31 +1083,28 @@ class Check(PropertyCheck):
             return None
         if obs['cov_shape'] != obs['shape']:
             return f'coverage has shape {obs["cov_shape"]}, the map has shape {obs["shape"]}'
-        pointing = int(np.prod(bshape, dtype=np.int64))
         try:
-            nsamples = int(np.prod(np.broadcast_shapes(tuple(bshape), tuple(pashape)), dtype=np.int64))
+            full = list(np.broadcast_shapes(tuple(bshape), tuple(pashape)))
         except ValueError:
             return None  # pa not broadcastable with the pointing: not a sampling
+        nsamples = int(np.prod(full, dtype=np.int64))
         if obs['n'] != nsamples:
             return f'len(sampling)={obs["n"]} for fields of shapes {tshape}, {pshape}, {pashape}'
-        mult = 1
-        if nsamples != pointing:
-            # pa broadcasts the pointing further: every direction stands for nsamples/pointing samples
+        if full != bshape:
+            # pa broadcasts the pointing further (detectors sharing a direction): every sample counts
             self.stats['coverage_pa_broadcasts_beyond_pointing'] += 1
-            if PA_CLAUSE:
-                mult = nsamples // max(pointing, 1)
+        hits = np.broadcast_to(ref.reshape(bshape), full).ravel()
         hist = np.zeros(N, dtype=np.int64)
-        np.add.at(hist, ref, mult)
+        np.add.at(hist, hits, 1)
         if obs['coverage'] != hist.tolist():
             cov = obs['coverage']
             p = next((i for i, (a, b) in enumerate(zip(cov, hist.tolist())) if a != b), None) if len(cov) == N else None
             return (
-                f'coverage differs from the histogram of the {len(ref)} broadcast samples of {where} (first at pixel {p}; '
+                f'coverage differs from the histogram of the {nsamples} samples of {where} x pa {pashape} (first at pixel {p}; '
                 f'sum {sum(cov)} for {nsamples} samples): {cov[:24]} vs {hist.tolist()[:24]}'
             )
-        if PA_CLAUSE or nsamples == pointing:
-            if sum(obs['coverage']) != obs['n']:
-                return f'coverage sums to {sum(obs["coverage"])} for {obs["n"]} samples'
+        if sum(obs['coverage']) != obs['n']:
+            return f'coverage sums to {sum(obs["coverage"])} for {obs["n"]} samples'
         return None
 
     def finding_key(self, case, obs):
